@@ -62,6 +62,59 @@ pub fn run_tapes(
     match res {
         Ok(()) => true,
         Err(TestError::Fail(_, tape)) => {
+            // greedy post-passes on the tape (Hypothesis-style): delete spans (shifting the rest left) and zero
+            // single positions, for as long as the failure is preserved
+            let mut tape = tape;
+            let fails = |ctx: &mut Ctx, tp: &[u32]| f(ctx, tp).is_err();
+            for _round in 0..3 {
+                for span in [8usize, 4, 2, 1] {
+                    let mut i = 0;
+                    while i + span <= tape.len() {
+                        if tape[i..].iter().all(|v| *v == 0) {
+                            break;
+                        }
+                        let mut cand = tape.clone();
+                        cand.drain(i..i + span);
+                        cand.extend(std::iter::repeat(0).take(span));
+                        if fails(ctx, &cand) {
+                            tape = cand;
+                        } else {
+                            i += 1;
+                        }
+                    }
+                }
+                for i in 0..tape.len() {
+                    if tape[i] == 0 {
+                        continue;
+                    }
+                    let saved = tape[i];
+                    tape[i] = 0;
+                    if !fails(ctx, &tape) {
+                        tape[i] = saved;
+                    }
+                }
+                // lower a count and delete the choices that belonged to the dropped elements
+                for i in 0..tape.len() {
+                    if tape[i] == 0 {
+                        continue;
+                    }
+                    'spans: for span in [1usize, 2, 3, 4, 5, 6, 8, 10, 12, 16, 24] {
+                        for off in 1..4usize {
+                            if i + off + span > tape.len() {
+                                continue;
+                            }
+                            let mut cand = tape.clone();
+                            cand[i] = 0;
+                            cand.drain(i + off..i + off + span);
+                            cand.extend(std::iter::repeat(0).take(span));
+                            if fails(ctx, &cand) {
+                                tape = cand;
+                                break 'spans;
+                            }
+                        }
+                    }
+                }
+            }
             // re-run on the shrunk tape to obtain the replay payload
             match f(ctx, &tape) {
                 Err(fail) => {
@@ -84,4 +137,37 @@ pub fn gen_tapes(seed: u64, stream: u64, n: usize, tape_len: usize) -> Vec<Vec<u
     let mut r = runner(seed, stream, n as u32);
     let s = tape_strategy(tape_len);
     (0..n).map(|_| s.new_tree(&mut r).expect("tape tree").current()).collect()
+}
+
+pub const WORKERS: u64 = 16;
+
+/// Parallel version: 16 fixed worker streams (so a run is reproducible on any core count), merged into `ctx`.
+pub fn run_tapes_par(
+    ctx: &mut Ctx,
+    stream: u64,
+    cases: u64,
+    tape_len: usize,
+    f: impl Fn(&mut Ctx, &[u32]) -> Result<(), Fail> + Sync,
+) -> bool {
+    let per = (cases + WORKERS - 1) / WORKERS;
+    let mut subs: Vec<Ctx> = (0..WORKERS)
+        .map(|_| {
+            let mut c = Ctx::new(&ctx.property, ctx.tier, ctx.seed);
+            c.replay_mode = ctx.replay_mode;
+            c
+        })
+        .collect();
+    let f = &f;
+    let oks: Vec<bool> = std::thread::scope(|scope| {
+        let handles: Vec<_> = subs
+            .iter_mut()
+            .enumerate()
+            .map(|(k, sub)| scope.spawn(move || run_tapes(sub, stream * 1000 + k as u64, per as u32, tape_len, f)))
+            .collect();
+        handles.into_iter().map(|h| h.join().unwrap_or(false)).collect()
+    });
+    for sub in subs {
+        ctx.merge(sub);
+    }
+    oks.into_iter().all(|b| b)
 }
